@@ -26,6 +26,7 @@ import (
 // that park before delivering each command and each reply, so the scheduler
 // decides the interleaving of commands of different connections (DESIGN 2.6).
 type redisWorld struct {
+	latency time.Duration
 	e       *sim.Env
 	m       *miniredis.Miniredis
 	clients map[int]kvs.Storage
@@ -45,7 +46,7 @@ func newRedisWorld(e *sim.Env, c *sim.Case) (*redisWorld, error) {
 	m.Seed(1)
 	now := time.Now()
 	m.SetTime(now)
-	return &redisWorld{e: e, m: m, clients: map[int]kvs.Storage{}, last: now}, nil
+	return &redisWorld{e: e, m: m, clients: map[int]kvs.Storage{}, last: now, latency: time.Duration(c.Knob("net_latency_ns", 0))}, nil
 }
 
 func (rw *redisWorld) syncClock() {
@@ -158,6 +159,11 @@ func (rw *redisWorld) pumpC2S(id int, from, to net.Conn) {
 			}
 			acc = append([]byte(nil), rest...)
 			zsimrt.Yield("net:c2s:" + name)
+			if rw.latency > 0 {
+				// a network that takes its time: the world moves on while a command travels
+				rw.e.FaultFired("network_latency")
+				zsimrt.Sleep("net:latency", rw.latency)
+			}
 			rw.syncClock()
 			rw.cmds++
 			rw.e.Logf("redis conn%d <- %s", id, name)
